@@ -1,7 +1,10 @@
 use std::collections::HashMap;
 use std::net::SocketAddrV4;
 use std::num::NonZeroUsize;
+#[cfg(not(mainline_verif))]
 use std::time::{Duration, Instant};
+#[cfg(mainline_verif)]
+use {crate::verif::Instant, std::time::Duration};
 
 use lru::LruCache;
 use tracing::error;
@@ -484,6 +487,27 @@ impl Core {
                 }
             }
         };
+    }
+}
+
+#[cfg(mainline_verif)]
+impl Core {
+    /// Per cached lookup: (target, is find_node, is get_signed_peers, dht_size_estimate,
+    /// responders_dht_size_estimate, subnets)
+    pub(crate) fn verif_cache(&self) -> Vec<(Id, bool, bool, f64, f64, u8)> {
+        self.cached_iterative_queries
+            .iter()
+            .map(|(target, cached)| {
+                (
+                    *target,
+                    matches!(cached.request_type, RequestTypeSpecific::FindNode(_)),
+                    matches!(cached.request_type, RequestTypeSpecific::GetSignedPeers(_)),
+                    cached.dht_size_estimate,
+                    cached.responders_dht_size_estimate,
+                    cached.subnets,
+                )
+            })
+            .collect()
     }
 }
 
